@@ -20,7 +20,7 @@ PROPERTY = {
     'hang_is_violation': True,
     'replay_timeout': 30,
     'per_split_timeout': {'quick': 600, 'thorough': 1800},
-    'wall_budget': {'quick': 900, 'thorough': 3400},
+    'wall_budget': {'quick': 1500, 'thorough': 7000},
 }
 
 TARGETS = ['a', 'b', 'm.x', 'l[1]', 'm', 'l', 'd', 'd.v', 'c', 's', 'nope.q']   # s: a string scalar whose text equals its own path
